@@ -189,8 +189,8 @@ pub fn def() -> CheckDef {
                two-hop bounds are checked in the `two_hop` sub-check.",
         assumptions: vec!["nsvm runtime as in DESIGN.md §5"],
         subs: vec![
-            sub("single", 12000, 300_000, case_strategy, |c: &BoundsCase, l: &mut Local| check_case(c, l)),
-            sub("two_hop", 8000, 150_000, super::c17::case_strategy, |c: &super::c17::TwoHopCase, l: &mut Local| super::c17::check_case(c, l, true)),
+            sub("single", 24_000, 600_000, case_strategy, |c: &BoundsCase, l: &mut Local| check_case(c, l)),
+            sub("two_hop", 16_000, 400_000, super::c17::case_strategy, |c: &super::c17::TwoHopCase, l: &mut Local| super::c17::check_case(c, l, true)),
         ],
     }
 }
